@@ -111,6 +111,23 @@ theorem C20_equals_spec (i : Info) : Spec i (verImpl i) := by
     C20_isSort_mergeSort formLe_trans formLe_total _, hform _, ?_⟩
   simp [verImpl, sortStrings, List.flatMap_def]
 
+/-- **… and nothing else does**: for an info without equal sort keys (`Info.WF`) every string
+that satisfies the construction of §5.1 — whatever sorting procedure produced it — is the
+string the implementation hashes.  Together with `C20_equals_spec`: the implementation
+*equals* the specified construction. -/
+theorem C20_spec_unique (i : Info) (wf : i.WF) (s : Bytes) (h : Spec i s) : s = verImpl i := by
+  obtain ⟨ids, feats, forms, rs, hids, hfeats, hforms, hrs, rfl⟩ := h
+  obtain ⟨wids, wforms, wf'⟩ := wf
+  have e1 : ids = i.ids.mergeSort idLe := C20_sort_unique i.ids ids wids hids
+  have e2 : feats = sortStrings i.feats := C20_sort_unique_strings i.feats feats hfeats
+  have e3 : forms = i.forms.mergeSort formLe :=
+    sorted_perm_unique formLe_trans formLe_total hforms.1 hforms.2
+      (fun a b ha hb h1 h2 => pairwise_ne_inj wforms ha hb (lexLe_antisymm _ _ h1 h2))
+  subst e1 e2 e3
+  rw [all₂_eq_map hrs (fun F hF r hr =>
+    formSpec_unique (wf' F (List.mem_mergeSort.mp hF)) hr)]
+  simp [verImpl, List.flatMap_def]
+
 /-! ### `Hash` and `AppendHash` -/
 
 /-- `Hash(h)` is `AppendHash` with an empty destination, for every hash and encoding -/
